@@ -1697,6 +1697,7 @@ def spawn_path_facts(repo):
     # (6) every subprocess spawn site of rip-tools and ripd removes secret_env_names() from the child environment,
     #     before the call's own `env` is applied and before the spawn
     n_sites, n_strip = 0, 0
+    site_programs = []   # (file, fn name, [step names]) per spawn site: the ORDER of the steps between construction and spawn
     for fi in tools + ripd:
         toks = fi.toks
         has_proc = any(toks[i].k == "id" and toks[i].s == "process" and fi.is_p(i + 1, "::") and fi.is_id(i + 2, "Command") for i in range(len(toks)))
@@ -1711,6 +1712,7 @@ def spawn_path_facts(repo):
                 notes.append(f"{fi.rel}:{t.line} spawn site outside any function")
                 continue
             f = min(encl, key=lambda f: f.body[1] - f.body[0])
+            site_programs.append((fi.rel, f.name, site_steps(fi, f, i)))
             ok, why = False, "no secret_env_names() + env_remove between the construction and the spawn"
             spawns = [x for x in range(i, f.body[1]) if toks[x].k == "id" and toks[x].s in ("spawn", "spawn_command") and fi.is_p(x - 1, ".") and fi.is_p(x + 1, "(")]
             if not spawns:
@@ -1759,7 +1761,86 @@ def spawn_path_facts(repo):
             if t.k == "str" and not fi.test[i] and KEY_VAR_RE.match(t.s) and t.s not in fixed:
                 unlisted.add(t.s)
                 notes.append(f"{fi.rel}:{t.line} credential-shaped variable name {t.s!r} is not in PROVIDER_KEY_ENV_VARS")
-    return fixed, fresh, grows, load_registers, loaders, n_sites, n_strip, len(unlisted), notes
+    site_programs.sort()
+    return fixed, fresh, grows, load_registers, loaders, n_sites, n_strip, len(unlisted), notes, site_programs
+
+
+def site_steps(fi, f, i):
+    """The step ORDER of one spawn site (function f of file fi, command constructed at token i), as the model's `sstep`
+    names: SCwd (the `if let Some(cwd) .. { resolve_path .. current_dir } else { current_dir(root) }` statement at the top
+    level of the function), SStrip (the removal loop over secret_env_names() at the top level, `for` loops / closures allowed
+    around it), SStripIfCwd / SStripIfNoCwd (the loop sits in the then- / else-block of the cwd statement), SStripCond (under any
+    other condition), SOwnEnv (the call's own `env`: .envs( / .env( ), SSpawn.  Anything not found is simply absent from the
+    list (the obligation compares the list with the model's order)."""
+    toks = fi.toks
+    body_open, body_close = f.body
+    spawns = [x for x in range(i, body_close) if toks[x].k == "id" and toks[x].s in ("spawn", "spawn_command") and fi.is_p(x - 1, ".") and fi.is_p(x + 1, "(")]
+    sp = spawns[0] if spawns else body_close
+    events = []
+
+    def enclosing_brace(x):
+        par = fi.parent[x]
+        while par != -1 and not fi.is_p(par, "{"):
+            par = fi.parent[par]
+        return par
+
+    # the cwd statement
+    cwd_then, cwd_else = None, None
+    for x in range(i, sp):
+        if toks[x].k == "id" and toks[x].s == "if" and enclosing_brace(x) == body_open and not (x > 0 and fi.is_id(x - 1, "else")):
+            a = x + 1
+            while a < sp and not (fi.is_p(a, "{") and fi.parent[a] == fi.parent[x]):
+                a += 1
+            if a >= sp or a not in fi.mate:
+                continue
+            head = [t.s for t in toks[x + 1:a] if t.k == "id"]
+            if "cwd" not in head:
+                continue
+            b = fi.mate[a]
+            then_ids = [t.s for t in toks[a:b] if t.k == "id"]
+            if "resolve_path" not in then_ids or not ({"current_dir", "cwd"} & set(then_ids)):
+                continue
+            if fi.is_id(b + 1, "else") and fi.is_p(b + 2, "{") and (b + 2) in fi.mate:
+                c, d = b + 2, fi.mate[b + 2]
+                else_calls = [y for y in range(c, d) if toks[y].k == "id" and toks[y].s in ("current_dir", "cwd") and fi.is_p(y - 1, ".") and fi.is_p(y + 1, "(")]
+                if else_calls:
+                    cwd_then, cwd_else = (a, b), (c, d)
+                    events.append((x, "SCwd"))
+                    break
+    # the removal loops
+    for k in range(i, sp):
+        if not (toks[k].k == "id" and toks[k].s == "secret_env_names" and fi.is_p(k + 1, "(")):
+            continue
+        rms = [x for x in range(k, sp) if toks[x].k == "id" and toks[x].s == "env_remove" and fi.is_p(x - 1, ".") and fi.is_p(x + 1, "(")]
+        if not rms:
+            continue
+        rm = rms[0]
+        kind = "SStrip"
+        par = fi.parent[rm]
+        while par != -1 and par != body_open:
+            if fi.is_p(par, "{"):
+                if cwd_then and par == cwd_then[0]:
+                    kind = "SStripIfCwd" if kind == "SStrip" else kind
+                elif cwd_else and par == cwd_else[0]:
+                    kind = "SStripIfNoCwd" if kind == "SStrip" else kind
+                else:
+                    h = par - 1
+                    while h > body_open and not (toks[h].k == "p" and toks[h].s in (";", "{", "}")):
+                        h -= 1
+                    head = [x.s for x in toks[h + 1:par] if x.k == "id"]
+                    closure = fi.is_p(par - 1, "|")
+                    if not closure and (not head or head[0] != "for"):
+                        kind = "SStripCond"
+            par = fi.parent[par]
+        events.append((rm, kind))
+    # the call's own env
+    own = [x for x in range(i, sp) if toks[x].k == "id" and toks[x].s in ("envs", "env") and fi.is_p(x - 1, ".") and fi.is_p(x + 1, "(")]
+    if own:
+        events.append((own[0], "SOwnEnv"))
+    if spawns:
+        events.append((sp, "SSpawn"))
+    events.sort()
+    return [name for _, name in events]
 
 
 
@@ -1847,7 +1928,7 @@ def main():
     if not any(r.startswith("ripd/src/server.rs") for r, _, _ in kinds_found.get("UPresence", [])):
         problems.append("anchor use not found: presence test in server.rs (doctor)")
 
-    sp_fixed, sp_fresh, sp_grows, sp_load, sp_loaders, sp_sites, sp_strip, sp_unlisted, sp_notes = spawn_path_facts(a.repo)
+    sp_fixed, sp_fresh, sp_grows, sp_load, sp_loaders, sp_sites, sp_strip, sp_unlisted, sp_notes, sp_programs = spawn_path_facts(a.repo)
 
     def cb(b):
         return "true" if b else "false"
@@ -1910,6 +1991,22 @@ def main():
     out.append("  /\\ sf_unlisted_key_vars gen_spawn_facts = 0.")
     out.append("Proof. exact (spawn_facts_wf_sound _ gen_spawn_facts_ok). Qed.")
     out.append("")
+    out.append("(* the STEP ORDER of every subprocess spawn site, read from the source (file, function, steps between the construction")
+    out.append("   of the command and the spawn): cwd statement, removal loop over secret_env_names() and WHERE it sits (top level of")
+    out.append("   the function / then- or else-block of the cwd statement / under another condition), the call's own env, spawn.")
+    out.append("   Obligation: the sites are the three the model has, each with the model's order [SCwd; SStrip; SOwnEnv; SSpawn]. *)")
+    out.append("Definition gen_spawn_site_steps : list (str * str * list sstep) := [")
+    for n, (rel, fname, steps) in enumerate(sp_programs):
+        sep = ";" if n + 1 < len(sp_programs) else ""
+        out.append("  (%s, %s, [%s])%s" % (coq_lit(rel), coq_lit(fname), "; ".join(steps), sep))
+    out.append("].")
+    out.append("Lemma gen_spawn_site_steps_ok : site_steps_wf gen_spawn_site_steps = true.")
+    out.append("Proof. vm_compute. reflexivity. Qed.")
+    out.append("Lemma gen_spawn_sites_as_modelled :")
+    out.append("  map fst gen_spawn_site_steps = modelled_spawn_sites")
+    out.append("  /\\ Forall (fun s => forall m r e q, run_steps (snd s) m r q (cmd_new e) = site_cmd true m r e q) gen_spawn_site_steps.")
+    out.append("Proof. exact (site_steps_wf_sound _ gen_spawn_site_steps_ok). Qed.")
+    out.append("")
     out.append("Lemma gen_uses_within_model_flows :")
     out.append("  gen_found_all = true")
     out.append("  /\\ Forall (fun k => exists u, use_kind_code u = k /\\ u <> UFormat /\\ u <> USerialize /\\ u <> UOther) gen_use_kinds")
@@ -1928,6 +2025,8 @@ def main():
           f"loaders={sp_loaders} spawn sites {sp_strip}/{sp_sites} stripping, {sp_unlisted} unlisted key variables")
     for nt in sp_notes:
         print("  SPAWN-PATH PROBLEM " + nt)
+    for rel, fname, steps in sp_programs:
+        print(f"secret_uses: spawn site {rel} fn {fname}: " + " ".join(steps))
     if a.verbose:
         for u in uses:
             print("  %s:%d %s %s" % (u[0], u[1], u[3], u[4]))
